@@ -240,6 +240,7 @@ func run(c *hx.Ctx) {
 		if o.stats.FinalCut {
 			res.Count("histories-reaching-the-final-cut-height")
 		}
+		res.CountN("boundaries-after-a-checkpoint-node-reverted-its-own-checkpoint-block (chain-level sections only)", o.stats.BelowCheckpoint)
 		if cs.Cache {
 			res.Count("backend:CacheDB-over-MemDB")
 		}
